@@ -169,8 +169,14 @@ def synthetic_results(results: list, rng: random.Random, n_bin_bounds: int) -> l
             elif m < 0.4:
                 ob[k] = ob[k] - 0.25
         ov = dict(r.objectives)
+        # an objective of the caller's own that can reach 0 (the seven shipped ones are at least 1)
+        ov["waste"] = rng.choice([0, 0, 3, 17, 2.5])
+        ob["waste.lowerBound"] = mods.setdefault((r.end_result.instance, "waste.lowerBound"), rng.choice([0, 0, -1.5]))
+        ob["waste.upperBound"] = mods.setdefault((r.end_result.instance, "waste.upperBound"),
+                                                 rng.choice([1000, float("inf"), 99.5]))
         for k in sorted(ov):     # fractional values of objectives that were evaluated but not optimised
-            if k != r.end_result.objective and ob[k + ".upperBound"] > r.objective_bounds[k + ".upperBound"] \
+            if k != "waste" and k != r.end_result.objective \
+                    and ob[k + ".upperBound"] > r.objective_bounds[k + ".upperBound"] \
                     and rng.random() < 0.5:
                 ov[k] = ov[k] + 0.5
         out.append(pr.PackingResult(r.end_result, r.n_items, r.n_different_items, r.bin_width, r.bin_height,
@@ -205,6 +211,10 @@ def run(prop: str, tier: str, seed: int) -> int:
                          [rng.randint(1, W), rng.randint(1, H), rng.randint(1, 12)]]
             else:
                 W, H, items = bp.fam_dense(rng)
+            if k % 25 == 7:       # many copies of small items: the item count alone decides the storage type
+                W, H = rng.randint(5, 40), rng.randint(5, 40)
+                items = sorted([[rng.randint(1, 3), rng.randint(1, 3), rng.choice([126, 127, 128, 150, 255, 256, 300])],
+                                [rng.randint(1, 5), rng.randint(4, 5), rng.choice([1, 2, 130, 33000])]])
             if not items:
                 continue
             inst = bp.make_instance(W, H, items, name=f"i{k}")
